@@ -45,6 +45,7 @@ package html
 //@ func (*HTMLTable).RenderTo
 //@   tags C09,C14,C15,C16
 //@   requires ht != nil && tbl(ht.Table)
+//@   assigns heap[tabular.propertyImpl.properties], new(tabular.valueProperty), htab(ht).ErrorContainer.errors_, elemscap(htab(ht).ErrorContainer.errors_), ghost cbErrN, ghost cbErrLog, ghost cbCallN, ghost cbCallSelf, ghost cbCallOwner, ghost stage, ghost fires, ghost stageR, ghost firesR, ghost stageT, ghost stageC, ghost Wn, ghost Wchunk, ghost Wfailed, ht.template, ghost tplBound, ghost funcsGen, ghost funcsId, new(template.Template)
 //@   requires [writer-ok] !Wfailed
 //@   ensures [table-still-wellformed] tbl(ht.Table) @C09,C14
 //@   ensures [failing-writer-surfaces] Wfailed ==> result != nil @C15
